@@ -1389,6 +1389,7 @@ fn package(prop: Prop, plan: &Plan, hist: &[HOp], class: String, detail: String,
             "perm_seed": plan.perm_seed,
             "run": run,
         }),
+        unminimised_replay: None,
     }
 }
 
@@ -1577,8 +1578,10 @@ fn one_run(w: &World, ctx: &Ctx, prop: Prop, run: u64, want_sample: bool) -> Run
             package(prop, &plan, &plan.hist, class, detail, run)
         } else {
             let (h, d) = minimise(prop, &plan, &class);
-            let d = if d.is_empty() { detail } else { d };
-            package(prop, &plan, &h, class, d, run)
+            let d = if d.is_empty() { detail.clone() } else { d };
+            let mut v = package(prop, &plan, &h, class.clone(), d, run);
+            v.unminimised_replay = Some(package(prop, &plan, &plan.hist, class, detail, run).replay);
+            v
         }
     });
     let sample = want_sample.then(|| {
